@@ -1,7 +1,7 @@
 (** C16 — property theorems: statements (as printed by Coq) closed by [exact]. *)
-From Coq Require Import ZArith QArith Qround List.
+From Coq Require Import ZArith QArith Qround List Reals.
 From KV Require Import Base.IEEE Base.Outcome Base.Num C06.Model C06.Dur C06.Proofs C16.Model C16.ProofsWitness C16.ProofsProtocol
-  C16.ProofsStale C16.ProofsScaling C16.ProofsExamples.
+  C16.ProofsStale C16.ProofsScaling C16.ProofsExamples C16.ModelEffects C16.ProofsReverb C16.ProofsCompressor.
 Import ListNotations.
 Local Open Scope Z_scope.
 
@@ -191,3 +191,70 @@ Theorem filter_coeff_depends_on_ratio :
        eq_g pi lo hi tan f1 (dt_of sr1) == eq_g pi lo hi tan f2 (dt_of sr2) /\
        filter_arg lo hi f1 (dt_of sr1) == nclamp (f1 / inject_Z sr1)%Q lo hi.
 Proof. exact @filter_coeff_depends_on_ratio_l. Qed.
+
+Theorem reverb_time_error :
+  forall size sr : Z,
+       0 <= size < 2 ^ 31 ->
+       0 < sr < 2 ^ 32 ->
+       let T := secs_of_tuning size in
+       let L := @reverb_line Q _ size sr in
+       L = Z.max 1 (Qfloor (T * inject_Z sr)) /\
+       ((1 <= T * inject_Z sr)%Q ->
+        (T - 1 / inject_Z sr < inject_Z L / inject_Z sr)%Q /\ (inject_Z L / inject_Z sr <= T)%Q).
+Proof. exact @reverb_time_error_l. Qed.
+
+Theorem reverb_spread_in_seconds :
+  forall size sr : Z,
+       0 <= size < 2 ^ 30 ->
+       0 < sr < 2 ^ 32 ->
+       (1 <= secs_of_tuning size * inject_Z sr)%Q ->
+       let spread := secs_of_tuning STEREO_SPREAD in
+       let dl := (inject_Z (@reverb_right Q _ size sr) / inject_Z sr - inject_Z (@reverb_left Q _ size sr) / inject_Z sr)%Q in
+       (spread - 1 / inject_Z sr < dl)%Q /\ (dl < spread + 1 / inject_Z sr)%Q.
+Proof. exact @reverb_spread_in_seconds_l. Qed.
+
+Theorem reverb_lines_f64_exact :
+  map (@reverb_lines f64 _) common_device_rates = map (@reverb_lines Q _) common_device_rates.
+Proof. exact reverb_lines_f64_exact_l. Qed.
+
+Theorem reverb_line_f64_one_frame_short :
+  @reverb_line f64 _ 1300 15435 = 454 /\ @reverb_line Q _ 1300 15435 = 455 /\ 1300 * 15435 = 455 * 44100.
+Proof. exact reverb_line_f64_one_frame_short_l. Qed.
+
+Theorem reverb_unscaled_spread_refuted :
+  (forall size : Z,
+        @reverb_right_unscaled_spread f64 _ size 44100 = @reverb_right f64 _ size 44100 \/
+        ~ In size (comb_tunings ++ all_pass_tunings)) /\
+       (let T := secs_of_tuning (1116 + STEREO_SPREAD) in
+        let L := @reverb_right_unscaled_spread Q _ 1116 22050 in ~ (inject_Z L / 22050 <= T)%Q) /\
+       (let T := secs_of_tuning (1116 + STEREO_SPREAD) in
+        let L := @reverb_right_unscaled_spread Q _ 1116 192000 in ~ (T - 1 / 192000 < inject_Z L / 192000)%Q).
+Proof. exact reverb_unscaled_spread_refuted_l. Qed.
+
+Theorem compressor_envelope_in_seconds :
+  forall (D over : R) (segs : list (R * nat)%type) (e : R),
+       (0 < D)%R ->
+       Forall (fun sg : (R * nat)%type => (0 < fst sg)%R) segs ->
+       (env_run D over segs e - over = exp (- segs_time segs / D) * (e - over))%R.
+Proof. exact @compressor_envelope_in_seconds_l. Qed.
+
+Theorem compressor_cached_coefficient_counts_frames :
+  forall (D over sr0 : R) (segs : list (R * nat)%type) (e : R),
+       (0 < D)%R ->
+       (0 < sr0)%R ->
+       (env_run_cached D over sr0 segs e - over = exp (- (INR (segs_frames segs) / sr0) / D) * (e - over))%R.
+Proof. exact @compressor_cached_coefficient_l. Qed.
+
+Theorem compressor_cached_coefficient_refuted :
+  (forall (D over sr0 sr1 : R) (n : nat) (e : R),
+        (0 < D)%R ->
+        (0 < sr0)%R ->
+        (0 < sr1)%R ->
+        (env_run_cached D over sr0 [(sr1, n)] e - over = exp (- (INR n / sr1) / (D * (sr0 / sr1))) * (e - over))%R) /\
+       (forall (D over sr0 sr1 : R) (n : nat) (e : R),
+        (0 < D)%R ->
+        (0 < sr0)%R ->
+        (0 < sr1)%R ->
+        sr0 <> sr1 ->
+        (0 < n)%nat -> e <> over -> env_run_cached D over sr0 [(sr1, n)] e <> env_run D over [(sr1, n)] e).
+Proof. exact compressor_cached_coefficient_refuted_l. Qed.
